@@ -424,7 +424,11 @@ impl<L: Localize> TimeDomainIterator<L> {
 
         while self.curr_schedule.peek().map(|tr| tr.kind) == Some(curr_kind) {
             if let Some(max_interval_size) = self.opening_hours.ctx.approx_bound_interval_size {
-                if self.curr_date - start_date > max_interval_size + chrono::TimeDelta::days(1) {
+                let give_up_after = max_interval_size
+                    .checked_add(&chrono::TimeDelta::days(1))
+                    .unwrap_or(chrono::TimeDelta::MAX);
+
+                if self.curr_date - start_date > give_up_after {
                     return;
                 }
             }
